@@ -116,6 +116,7 @@ class Program:
                 s.bodies[b.fn] = b
         s._cg = None
         s.aliases = []
+        s.inlined = []
 
     def body(s, fn):
         return s.bodies.get(fn)
@@ -163,11 +164,21 @@ def load_program(path):
     except Exception:
         pass
     p = Program(path)
+    if not os.path.basename(path).startswith("ferrous."):
+        return p          # fixtures and other programs are analysed as they are
     try:
         import anchors
         p.aliases = anchors.normalise(p)
     except Exception as e:
         p.aliases = []
+    p.inlined = []
+    try:
+        import anchors, inline, json as _json
+        rec = set(_json.load(open(anchors.ANCHORS)))
+        if rec:
+            p.inlined = inline.normalise(p, rec)
+    except Exception as e:
+        p.inlined = [{"error": "inlining failed: %s" % e}]
     try:
         tmp = pk + ".%d" % os.getpid()
         with open(tmp, "wb") as f:
